@@ -29,6 +29,7 @@ struct ActorHandle {
     parked: bool,
     busy: bool, // inside a call
     exiting: bool,
+    current: Option<Value>,
     exit_reported: bool,
     dead: bool,
 }
@@ -57,6 +58,7 @@ struct Sched {
     timeout: Duration,
     rc: Arc<RunCtx>,
     open: HashMap<usize, Vec<(&'static str, i64)>>, // what each thread's caller still holds, innermost last
+    starting: Vec<usize>,
 }
 
 fn spawn_collector_actor() -> Sender<u8> {
@@ -113,12 +115,30 @@ impl Sched {
                 parked: false,
                 busy: true,
                 exiting: false,
+                current: None,
                 exit_reported: false,
                 dead: false,
             },
         );
-        self.wait_thread(t);
         emit(json!({"ev":"spawn","t":t}));
+        if self.col_busy {
+            // the collector holds the receiver registry for its whole sweep: the new thread waits
+            // for it inside its first touch of the sender; it is picked up when the sweep is over
+            self.starting.push(t);
+        } else {
+            self.wait_thread(t);
+        }
+    }
+
+    /// Threads that were waiting for the registry have registered once the sweep is over.
+    fn settle_starting(&mut self) {
+        if !self.col_busy {
+            for t in std::mem::take(&mut self.starting) {
+                if self.actors.get(&t).map(|a| a.busy).unwrap_or(false) {
+                    self.wait_thread(t);
+                }
+            }
+        }
     }
 
     /// Waits until thread t parks, finishes its call, or (after an exit) is gone.
@@ -256,6 +276,7 @@ impl Sched {
             let a = self.actors.get_mut(&t).unwrap();
             a.busy = true;
             a.exiting = is_exit;
+            a.current = Some(step.clone());
             let _ = a.tx.send(Cmd::Run(step.clone()));
         }
         if is_flush {
@@ -334,6 +355,7 @@ impl Sched {
         self.col_owner = None;
         let _ = self.col_tx.send(1);
         self.wait_collector();
+        self.settle_starting();
     }
 
     fn col(&mut self) {
@@ -341,6 +363,7 @@ impl Sched {
             self.col_parked = false;
             gate(Role::Collector).release();
             self.wait_collector();
+            self.settle_starting();
         } else {
             self.misses += 1;
         }
@@ -356,6 +379,7 @@ impl Sched {
             self.wait_collector();
             n += 1;
         }
+        self.settle_starting();
     }
 
     fn full_cycle(&mut self) {
@@ -376,6 +400,203 @@ impl Sched {
             "col" => self.col(),
             "cycle" => self.full_cycle(),
             _ => self.misses += 1,
+        }
+    }
+
+    /// Starts a call and returns as soon as the thread parks (before its first push, too) or the
+    /// call is over: every stop of the real code is a scheduling point of its own.
+    fn start_call(&mut self, t: usize, step: &Value) {
+        let is_flush = step["op"] == "flush";
+        let is_exit = step["op"] == "exit";
+        {
+            let o = self.open.entry(t).or_default();
+            match step["op"].as_str().unwrap_or("") {
+                "setlp" => o.push(("dropg", step["g"].as_i64().unwrap_or(0))),
+                "lcstart" => o.push(("lcdrop", step["c"].as_i64().unwrap_or(0))),
+                "lenter" => o.push(("lexit", step["l"].as_i64().unwrap_or(0))),
+                "dropg" | "lcdrop" | "lccollect" | "lexit" => {
+                    o.pop();
+                }
+                _ => {}
+            }
+        }
+        *shared().granted.lock().unwrap() = Some(t);
+        {
+            let a = self.actors.get_mut(&t).unwrap();
+            a.busy = true;
+            a.exiting = is_exit;
+            a.current = Some(step.clone());
+            let _ = a.tx.send(Cmd::Run(step.clone()));
+        }
+        if is_flush {
+            self.col_busy = true;
+            self.col_owner = Some(t);
+            self.wait_collector();
+            self.settle_starting();
+            return;
+        }
+        self.wait_thread(t);
+        if is_exit {
+            self.after_exit_step(t);
+        }
+    }
+
+    /// Can thread t's next call be issued now?  Its handles must exist and nobody else may be
+    /// inside a call on the same span or adapter.
+    fn ready(&self, t: usize, step: &Value) -> bool {
+        let op = step["op"].as_str().unwrap_or("");
+        let creates_h = matches!(op, "root" | "child" | "childl" | "mknoop" | "rootctx");
+        let mut need_span: Vec<i64> = Vec::new();
+        if !creates_h {
+            if let Some(h) = step["h"].as_i64() {
+                if op != "fnew" || step["kind"] != "eop" {
+                    need_span.push(h);
+                }
+            }
+        }
+        if let Some(ps) = step["ps"].as_array() {
+            need_span.extend(ps.iter().filter_map(|x| x.as_i64()));
+        }
+        if let Some(s) = step["src"].as_i64() {
+            if s != 0 {
+                need_span.push(s);
+            }
+        }
+        {
+            let spans = self.rc.spans.lock().unwrap();
+            if need_span.iter().any(|h| !spans.contains_key(h)) {
+                return false;
+            }
+        }
+        if op != "lccollect" {
+            if let Some(ls) = step["ls"].as_i64() {
+                if !self.rc.lsets.lock().unwrap().contains_key(&ls) {
+                    return false;
+                }
+            }
+        }
+        if op != "fnew" {
+            if let Some(f) = step["f"].as_i64() {
+                if !self.rc.futs.lock().unwrap().contains_key(&f) {
+                    return false;
+                }
+            }
+        }
+        // exclusivity
+        for (u, a) in &self.actors {
+            if *u == t || !a.busy {
+                continue;
+            }
+            if let Some(cur) = &a.current {
+                for k in ["h", "f"] {
+                    if !step[k].is_null() && step[k] == cur[k] {
+                        return false;
+                    }
+                }
+                if let (Some(h), Some(ps)) = (step["h"].as_i64(), cur["ps"].as_array()) {
+                    if !creates_h && ps.iter().any(|x| x.as_i64() == Some(h)) {
+                        return false;
+                    }
+                }
+            }
+        }
+        true
+    }
+
+    /// The behaviour's calls (per thread, in its order) under a random schedule over the stops the
+    /// real code actually makes: explores windows the model's own interleavings do not know of.
+    fn run_shuffled(&mut self, steps: &[Value], seed: u64) {
+        use std::collections::{BTreeMap, VecDeque};
+        let mut prog: BTreeMap<usize, VecDeque<Value>> = BTreeMap::new();
+        let mut cycles = 0usize;
+        for st in steps {
+            match st["ev"].as_str().unwrap_or("") {
+                "spawn" | "call" => prog.entry(st["t"].as_u64().unwrap_or(0) as usize).or_default().push_back(st.clone()),
+                "cyc" => cycles += 1,
+                _ => {}
+            }
+        }
+        cycles += 1;
+        let mut x = seed | 1;
+        let mut rnd = move |n: usize| -> usize {
+            x ^= x << 13;
+            x ^= x >> 7;
+            x ^= x << 17;
+            (x % n.max(1) as u64) as usize
+        };
+        #[derive(Clone, Copy)]
+        enum Ch {
+            Spawn(usize),
+            Start(usize),
+            Release(usize),
+            Cyc,
+            Col,
+        }
+        let mut guard = 0;
+        loop {
+            guard += 1;
+            if self.hung || guard > 5000 {
+                break;
+            }
+            let mut ch: Vec<Ch> = Vec::new();
+            for (t, p) in &prog {
+                let Some(next) = p.front() else { continue };
+                match self.actors.get(t) {
+                    None => {
+                        if next["ev"] == "spawn" {
+                            ch.push(Ch::Spawn(*t));
+                        }
+                    }
+                    Some(a) => {
+                        if a.parked {
+                            ch.push(Ch::Release(*t));
+                            ch.push(Ch::Release(*t));
+                        } else if !a.busy && !a.dead && next["ev"] == "call" && self.ready(*t, next) {
+                            if !(next["op"] == "flush" && self.col_busy) {
+                                ch.push(Ch::Start(*t));
+                                ch.push(Ch::Start(*t));
+                            }
+                        }
+                    }
+                }
+            }
+            // parked threads whose program is already exhausted (multi-push last call)
+            for (t, a) in &self.actors {
+                if a.parked && prog.get(t).map(|p| p.is_empty()).unwrap_or(true) {
+                    ch.push(Ch::Release(*t));
+                }
+            }
+            if self.col_parked {
+                ch.push(Ch::Col);
+                ch.push(Ch::Col);
+            } else if !self.col_busy && cycles > 0 && !ch.is_empty() {
+                ch.push(Ch::Cyc);
+            }
+            if ch.is_empty() {
+                break;
+            }
+            match ch[rnd(ch.len())] {
+                Ch::Spawn(t) => {
+                    prog.get_mut(&t).unwrap().pop_front();
+                    self.spawn(t);
+                }
+                Ch::Start(t) => {
+                    let st = prog.get_mut(&t).unwrap().pop_front().unwrap();
+                    self.start_call(t, &st);
+                }
+                Ch::Release(t) => {
+                    let exiting = self.actors[&t].exiting && !self.actors[&t].dead;
+                    self.release_thread(t);
+                    if exiting {
+                        self.after_exit_step(t);
+                    }
+                }
+                Ch::Cyc => {
+                    cycles -= 1;
+                    self.cyc();
+                }
+                Ch::Col => self.col(),
+            }
         }
     }
 
@@ -541,13 +762,18 @@ pub fn run(input: &str, output: &str, opts: Opts) -> std::io::Result<i32> {
             timeout: Duration::from_millis(opts.timeout_ms),
             rc: Arc::new(RunCtx::new(opts.seed.wrapping_add(idx as u64))),
             open: HashMap::new(),
+            starting: Vec::new(),
         };
-        let is_prefix = beh["prefix"].as_bool().unwrap_or(false);
-        for st in &steps {
-            if sc.hung {
-                break;
+        let is_prefix = beh["prefix"].as_bool().unwrap_or(false) || !beh["shuffle_seed"].is_null();
+        if let Some(seed) = beh["shuffle_seed"].as_u64() {
+            sc.run_shuffled(&steps, seed);
+        } else {
+            for st in &steps {
+                if sc.hung {
+                    break;
+                }
+                sc.step(st);
             }
-            sc.step(st);
         }
         if !sc.hung {
             let before = sc.misses;
